@@ -41,22 +41,59 @@ def _reads(root: Path) -> list[tuple[str, str, str]]:
 
 
 def _uncached_codes() -> list[str]:
-    """The attribute codes named in the `not in attributes` test guarding the store in unpack."""
+    """The attribute codes whose presence makes `AttributeCollection.unpack` reset its one-entry cache instead of
+    storing the result.  Decided by PROBING the real function (a well-formed attribute block per code, then a look at
+    `AttributeCollection.cached`), so that it does not depend on how the test is written in the source."""
+    import struct
+
+    from exabgp.bgp.message.update.attribute.attribute import Attribute
     from exabgp.bgp.message.update.attribute.collection import AttributeCollection
 
-    src = textwrap.dedent(inspect.getsource(AttributeCollection.unpack.__func__))
-    tree = ast.parse(src)
-    names: list[str] = []
-    for node in ast.walk(tree):
-        if isinstance(node, ast.If):
-            for cmp in ast.walk(node.test):
-                if isinstance(cmp, ast.Compare) and len(cmp.ops) == 1 and isinstance(cmp.ops[0], ast.NotIn):
-                    left = cmp.left
-                    if isinstance(left, ast.Attribute) and isinstance(left.value, ast.Attribute) and left.value.attr == 'CODE':
-                        names.append(left.attr)
-    if not names:
-        raise RuntimeError('AttributeCollection.unpack: the test guarding the store was not found')
-    return sorted(set(names))
+    from harness import sessions
+
+    _, n = sessions.make_config(families='ipv4 unicast ipv6 unicast')
+    neg = sessions.negotiate(n)
+
+    def tlv(flag: int, code: int, val: bytes) -> bytes:
+        return bytes([flag, code, len(val)]) + val
+
+    origin = tlv(0x40, 1, b'\x00')
+    aspath = tlv(0x40, 2, b'\x02\x01' + struct.pack('!I', 65001))
+    nh = tlv(0x40, 3, bytes([192, 0, 2, 1]))
+    base = origin + aspath + nh
+    probes = {
+        1: base, 2: base, 3: base,
+        4: base + tlv(0x80, 4, struct.pack('!I', 5)),
+        5: base + tlv(0x40, 5, struct.pack('!I', 100)),
+        6: base + tlv(0x40, 6, b''),
+        7: base + tlv(0xC0, 7, struct.pack('!I', 65001) + bytes([10, 0, 0, 1])),
+        8: base + tlv(0xC0, 8, struct.pack('!HH', 65000, 1)),
+        9: base + tlv(0x80, 9, bytes([10, 0, 0, 2])),
+        10: base + tlv(0x80, 10, bytes([10, 0, 0, 3])),
+        14: origin + aspath + tlv(0x80, 14, struct.pack('!HBB', 2, 1, 16) + bytes(15) + b'\x01' + b'\x00' + bytes([32, 0x20, 0x01, 0x0d, 0xb8])),
+        15: tlv(0x80, 15, struct.pack('!HB', 2, 1) + bytes([32, 0x20, 0x01, 0x0d, 0xb8])),
+        16: base + tlv(0xC0, 16, bytes([0, 2]) + struct.pack('!HI', 65000, 1)),
+        32: base + tlv(0xC0, 32, struct.pack('!III', 65000, 1, 2)),
+    }  # fmt: skip
+    saved = (AttributeCollection.cached, AttributeCollection.previous, getattr(AttributeCollection, 'previous_context', None))
+    names = {int(getattr(Attribute.CODE, k)): k for k in dir(Attribute.CODE) if k.isupper() and isinstance(getattr(Attribute.CODE, k), int)}
+    out: list[str] = []
+    try:
+        for code, block in sorted(probes.items()):
+            AttributeCollection.cached = None
+            AttributeCollection.previous = b''
+            got = AttributeCollection.unpack(block, neg)
+            if code not in got:
+                raise RuntimeError(f'probe for attribute {code} was not decoded: {got}')
+            if AttributeCollection.cached is None:
+                out.append(names[code])
+    finally:
+        AttributeCollection.cached, AttributeCollection.previous = saved[0], saved[1]
+        if saved[2] is not None or hasattr(AttributeCollection, 'previous_context'):
+            AttributeCollection.previous_context = saved[2]
+    if not out:
+        raise RuntimeError('AttributeCollection.unpack stores every probe: nothing is left uncached')
+    return sorted(set(out))
 
 
 def generate() -> dict[str, str]:
